@@ -1,4 +1,4 @@
-import FiberModel.C09.ParseLemmas
+import FiberModel.C09.RoundTrip
 /-
 C09 — property theorems (only). Helper lemmas: SortLemmas, SelectLemmas, ParseLemmas.
 
@@ -48,18 +48,16 @@ example :
 
 /-! ### selection -/
 
-/-- Level A of `getOffer_eq_spec`: for every non-empty header and offer list, `getOffer` (parse,
-    binary-insertion sort, nested search) returns what the property's rule `select` (greatest
-    accepting range under the 4-key order, its first acceptable offer) returns on the parsed ranges.
-    `tabFinite`: `ParseFloat` yields no NaN/Inf on this header's q texts. -/
-theorem getOffer_eq_select (tab : Bytes → Option Qual) (ht : tabFinite tab) (acc : Bytes → Bytes → Params → Bool)
-    (header : Bytes) (offers : List Bytes) (hh : header ≠ []) (ho : offers ≠ []) :
+/-- `getOffer_eq_select`, stated with what it really needs: the parsed qualities are finite -/
+theorem getOffer_eq_select_fin (tab : Bytes → Option Qual) (acc : Bytes → Bytes → Params → Bool)
+    (header : Bytes) (offers : List Bytes) (hh : header ≠ []) (ho : offers ≠ [])
+    (hfin : ∀ r ∈ parseRanges tab header, r.q.isFin = true) :
     getOffer tab acc header offers = select (accS acc) ((parseRanges tab header).map toS) offers := by
   obtain ⟨o0, os, rfl⟩ := List.exists_cons_of_ne_nil ho
   have hprops := parseRangesFrom_props tab (mediaRanges header) 0
   let rs := parseRanges tab header
   let E := (rs.map fun r => expOf r.q).sum
-  have hok : AllOk E rs := fun r hr => ⟨(hprops.1 r hr).2.2.2 ht, expOf_le_sum hr⟩
+  have hok : AllOk E rs := fun r hr => ⟨hfin r hr, expOf_le_sum hr⟩
   have hsp : ∀ r ∈ rs, r.spcfOK := fun r hr => (hprops.1 r hr).2.1
   have hd : rs.Pairwise fun a c => a.order ≠ c.order := hprops.2.imp fun h => Nat.ne_of_lt h
   have key := findOffer_sorted_eq_select acc rs (o0 :: os) hok hsp hd
@@ -71,6 +69,189 @@ theorem getOffer_eq_select (tab : Bytes → Option Qual) (ht : tabFinite tab) (a
   · simp only [hlen, if_false]
     rw [sortAccepted_short rs hlen] at key
     exact key
+
+/-- Level A of `getOffer_eq_spec`: for every non-empty header (arbitrary bytes) and offer list,
+    `getOffer` (parse, binary-insertion sort, nested search) returns what the property's rule `select`
+    (greatest accepting range under the 4-key order, its first acceptable offer) returns on the
+    parsed ranges. `tabFinite`: `ParseFloat` yields no NaN/Inf on this header's q texts. -/
+theorem getOffer_eq_select (tab : Bytes → Option Qual) (ht : tabFinite tab) (acc : Bytes → Bytes → Params → Bool)
+    (header : Bytes) (offers : List Bytes) (hh : header ≠ []) (ho : offers ≠ []) :
+    getOffer tab acc header offers = select (accS acc) ((parseRanges tab header).map toS) offers :=
+  getOffer_eq_select_fin tab acc header offers hh ho
+    (fun r hr => ((parseRangesFrom_props tab (mediaRanges header) 0).1 r hr).2.2.2 ht)
+
+/-- what the property demands of `Accepts*` for a header of the grammar, with Go's `isAccepted` -/
+def expectedWith (acc : Bytes → Bytes → Params → Bool) (es : List Elem) (offers : List Bytes) : Bytes :=
+  match offers with
+  | [] => []
+  | o0 :: _ => if render es == [] then o0 else select (accS acc) (denote es) offers
+
+/-- **`getOffer_eq_spec`** (header level, full strength outside the two known regions): for EVERY
+    header of the RFC 9110 grammar (`wf`: any ranges, parameters with token or quoted-string values incl.
+    quoted-pairs / commas / semicolons, weights, accept-ext, empty list elements, optional whitespace)
+    that does not use HTAB as whitespace (K1) and has no empty parameter before one that matters (K2),
+    every offer list and every `ParseFloat` table, `getOffer` on the rendered bytes returns the first
+    offer acceptable to the most preferred range of the header's *meaning* (`denote`, read off the syntax
+    tree; ranges with q = 0 removed) under (q desc, specificity desc, #params desc, position asc); an
+    absent header selects the first offer. `hEmpty`: the predicate lets the empty range accept nothing. -/
+theorem getOffer_eq_spec_partial (tab : Bytes → Option Qual) (acc : Bytes → Bytes → Params → Bool)
+    (es : List Elem) (offers : List Bytes)
+    (hwf : wf es = true) (hk1 : Known.K1 es = false) (hk2 : Known.K2 es = false)
+    (hEmpty : ∀ o ∈ offers, ∀ ps, o ≠ [] → acc [] o ps = false) :
+    getOffer tab acc (render es) offers = expectedWith acc es offers := by
+  unfold expectedWith
+  cases offers with
+  | nil => simp [getOffer]
+  | cons o0 os =>
+    by_cases hnil : render es = []
+    · simp [hnil, getOffer]
+    · have hnil' : (render es == []) = false := by simpa using hnil
+      simp only [hnil', Bool.false_eq_true, if_false]
+      have hs := strict_of_wf hwf hk1
+      have hk := noK2_of hk2
+      obtain ⟨hp1, hp2⟩ := parse_render tab es hs hk false 0
+      have hfin : ∀ r ∈ parseRanges tab (render es), r.q.isFin = true := by
+        intro r hr
+        by_cases hsp : r.spec = []
+        · rw [hp2 r hr hsp]; rfl
+        · have : r ∈ (parseRanges tab (render es)).filter (fun r => r.spec != []) := by
+            rw [List.mem_filter]; exact ⟨hr, by simpa using hsp⟩
+          have hp1' : (parseRanges tab (render es)).filter (fun r => r.spec != []) = (denoteFrom es 1).map fromS := hp1
+          rw [hp1'] at this
+          obtain ⟨d, hd, rfl⟩ := List.mem_map.1 this
+          exact denoteFrom_fin es 1 d hd
+      rw [getOffer_eq_select_fin tab acc (render es) (o0 :: os) hnil (by simp) hfin]
+      unfold select
+      have hbridge := filter_bridge (fun r => (firstAcceptable (accS acc) r (o0 :: os)).isSome)
+        (parseRanges tab (render es)) (denoteFrom es 1) hp1 (by
+          intro r hr hsp
+          simp only [firstAcceptable, accS, toS, hsp]
+          rw [Option.isSome_eq_false_iff, Option.isNone_iff_eq_none, List.find?_eq_none]
+          intro o ho
+          by_cases hoe : o = []
+          · simp [hoe]
+          · simp [hoe, hEmpty o ho r.params hoe])
+      rw [hbridge]
+      rfl
+
+/-- the empty range accepts no offer under `acceptsOffer` -/
+theorem acceptsOffer_empty (o : Bytes) (ps : Params) (ho : o ≠ []) : acceptsOffer [] o ps = false := by
+  cases o with
+  | nil => exact absurd rfl ho
+  | cons c cs => simp [acceptsOffer, hasPrefix, List.isPrefixOf]
+
+/-- `AcceptsCharsets / AcceptsEncodings / AcceptsLanguages` = the specification's `expected` -/
+theorem accepts_token_eq_spec_partial (tab : Bytes → Option Qual) (mime : Bytes → Bytes) (es : List Elem) (offers : List Bytes)
+    (hwf : wf es = true) (hk1 : Known.K1 es = false) (hk2 : Known.K2 es = false) :
+    getOffer tab acceptsOffer (render es) offers = expected mime .token es offers := by
+  rw [getOffer_eq_spec_partial tab acceptsOffer es offers hwf hk1 hk2 (fun o _ ps ho => acceptsOffer_empty o ps ho)]
+  rfl
+
+-- the witnesses of the two known findings: the full statement fails there
+theorem getOffer_eq_spec_witness_K1 :
+    ¬ (getOffer (fun _ => none) (acceptsOfferType fun _ => [])
+        (render [⟨[], b "text/html", [⟨[], [9], b "q", false, b "0"⟩], []⟩, ⟨[32], b "text/plain", [], []⟩])
+        [b "text/html", b "text/plain"] =
+       expectedWith (acceptsOfferType fun _ => [])
+        [⟨[], b "text/html", [⟨[], [9], b "q", false, b "0"⟩], []⟩, ⟨[32], b "text/plain", [], []⟩]
+        [b "text/html", b "text/plain"]) := by decide
+
+theorem getOffer_eq_spec_witness_K2 :
+    ¬ (getOffer (fun _ => none) (acceptsOfferType fun _ => [])
+        (render [⟨[], b "text/html", [⟨[], [], [], false, []⟩, ⟨[], [], b "q", false, b "0"⟩], []⟩, ⟨[32], b "text/plain", [], []⟩])
+        [b "text/html", b "text/plain"] =
+       expectedWith (acceptsOfferType fun _ => [])
+        [⟨[], b "text/html", [⟨[], [], [], false, []⟩, ⟨[], [], b "q", false, b "0"⟩], []⟩, ⟨[32], b "text/plain", [], []⟩]
+        [b "text/html", b "text/plain"]) := by decide
+
+-- non-vacuity of `getOffer_eq_spec_partial`: `text/html;q=0 , text/plain;a="x\\"y", */*;q=0.1` is in the region;
+-- text/html is refused by its own range but `*/*` accepts it (the property's rule), image/png comes second
+example :
+    let es : List Elem := [⟨[], b "text/html", [⟨[], [], b "q", false, b "0"⟩], [32]⟩,
+      ⟨[32], b "text/plain", [⟨[], [], b "a", true, [120, 92, 34, 121]⟩], []⟩,
+      ⟨[32], b "*/*", [⟨[], [], b "q", false, b "0.1"⟩], []⟩]
+    wf es = true ∧ Known.K1 es = false ∧ Known.K2 es = false ∧
+    getOffer (fun _ => none) (acceptsOfferType fun _ => []) (render es) [b "image/png", b "text/html"] = b "image/png" ∧
+    getOffer (fun _ => none) (acceptsOfferType fun _ => []) (render (es.take 2)) [b "text/html", b "image/png"] = [] := by
+  decide
+
+theorem best_mem {l : List SRange} {m : SRange} (h : best l = some m) : m ∈ l := by
+  induction l generalizing m with
+  | nil => simp [best] at h
+  | cons r rs ih =>
+    simp only [best] at h
+    cases hb : best rs with
+    | none => rw [hb] at h; cases h; simp
+    | some m' =>
+      rw [hb] at h
+      simp only at h
+      split at h
+      · cases h; exact List.mem_cons_of_mem _ (ih hb)
+      · cases h; simp
+
+/-- whatever `select` returns was accepted by one of the ranges it was given -/
+theorem select_sound (acc : SRange → Bytes → Bool) (rs : List SRange) (offers : List Bytes) (o : Bytes)
+    (h : select acc rs offers = o) (ho : o ≠ []) : ∃ r ∈ rs, o ∈ offers ∧ acc r o = true := by
+  unfold select at h
+  cases hb : best (rs.filter fun r => (firstAcceptable acc r offers).isSome) with
+  | none => rw [hb] at h; exact absurd h.symm ho
+  | some r =>
+    rw [hb] at h
+    simp only at h
+    have hm := best_mem hb
+    rw [List.mem_filter] at hm
+    obtain ⟨o', ho'⟩ := Option.isSome_iff_exists.1 hm.2
+    rw [ho'] at h
+    simp only [Option.getD_some] at h
+    subst h
+    unfold firstAcceptable at ho'
+    have h1 := List.find?_some ho'
+    simp only [Bool.and_eq_true] at h1
+    exact ⟨r, hm.1, List.mem_of_find?_eq_some ho', h1.2⟩
+
+theorem denoteFrom_nonzero (es : List Elem) (n : Nat) : ∀ s ∈ denoteFrom es n, s.q.isZero = false := by
+  induction es generalizing n with
+  | nil => intro s h; simp [denoteFrom] at h
+  | cons e es ih =>
+    intro s h
+    simp only [denoteFrom] at h
+    cases hd : denoteElem e n with
+    | none => rw [hd] at h; exact ih _ s h
+    | some d =>
+      rw [hd] at h
+      rcases List.mem_cons.1 h with rfl | h
+      · unfold denoteElem at hd
+        by_cases hr : e.rng = []
+        · simp [hr] at hd
+        · have hr' : (e.rng == []) = false := by simpa using hr
+          simp only [hr', Bool.false_eq_true, if_false, Option.ite_none_left_eq_some, Option.some.injEq] at hd
+          obtain ⟨hz, hs⟩ := hd
+          rw [← hs]; simpa using hz
+      · exact ih _ s h
+
+/-- **`q0_never_selected`** (header level): on a header of the grammar (outside K1/K2), whatever
+    `getOffer` selects is an offer accepted by a range of the header whose weight is not 0 — a
+    range sent with `q=0` (in any of the spellings `0`, `0.0`, `0.00`, `0.000`, with `q`/`Q`, with any
+    optional whitespace around `;` and before the comma) never selects an offer. -/
+theorem q0_never_selected_partial (tab : Bytes → Option Qual) (acc : Bytes → Bytes → Params → Bool)
+    (es : List Elem) (offers : List Bytes) (o : Bytes)
+    (hwf : wf es = true) (hk1 : Known.K1 es = false) (hk2 : Known.K2 es = false)
+    (hEmpty : ∀ o ∈ offers, ∀ ps, o ≠ [] → acc [] o ps = false)
+    (hne : render es ≠ []) (ho : o ≠ []) (h : getOffer tab acc (render es) offers = o) :
+    ∃ r ∈ denote es, r.q.isZero = false ∧ o ∈ offers ∧ acc r.spec o r.params = true := by
+  rw [getOffer_eq_spec_partial tab acc es offers hwf hk1 hk2 hEmpty] at h
+  unfold expectedWith at h
+  cases offers with
+  | nil => exact absurd h.symm ho
+  | cons o0 os =>
+    have hne' : (render es == []) = false := by simpa using hne
+    simp only [hne', Bool.false_eq_true, if_false] at h
+    obtain ⟨r, hr, hmem, hacc⟩ := select_sound _ _ _ _ h ho
+    exact ⟨r, hr, denoteFrom_nonzero es 1 r hr, hmem, hacc⟩
+
+-- the repaired defect F1 as an instance: `text/html;q=0 , text/plain` no longer selects text/html
+example : getOffer (fun _ => none) (acceptsOfferType fun _ => []) (b "text/html;q=0 , text/plain")
+    [b "text/html", b "text/plain"] = b "text/plain" := by decide
 
 /-- `Accepts*` return one of the offers or nothing — for arbitrary bytes, any tables. -/
 theorem result_is_offer_or_empty (tab : Bytes → Option Qual) (acc : Bytes → Bytes → Params → Bool)
